@@ -188,10 +188,9 @@ class HTTP(BaseComponent):
 
                 self.fire(write(sock, body))
 
+            if not res.stream:
                 if res.chunked:
                     self.fire(write(sock, b'0\r\n\r\n'))
-
-            if not res.stream:
                 if res.close:
                     self.fire(close(sock))
                 # Delete the request/response objects if present
